@@ -4,6 +4,7 @@ import Driver.Ops.Bloom
 import Driver.Ops.Crc
 import Driver.Ops.Cursor
 import Driver.Ops.Delta
+import Driver.Ops.FileWrite
 import Driver.Ops.Lz4
 import Driver.Ops.Par
 import Driver.Ops.Plain
@@ -24,6 +25,7 @@ def handlers : List (Line → Option Verdict) :=
     Driver.Ops.Crc.handle,
     Driver.Ops.Cursor.handle,
     Driver.Ops.Delta.handle,
+    Driver.Ops.FileWrite.handle,
     Driver.Ops.Lz4.handle,
     Driver.Ops.Par.handle,
     Driver.Ops.Plain.handle,
